@@ -14,11 +14,14 @@ structure PIn where
   executed : Bool            -- answer of `bridge.IsProposalExecuted`
 deriving Repr
 
-/-- `propGasLimit` (uint64 arithmetic) -/
+/-- the gas allowance of a proposal as an unbounded number: per-proposal limit (if any) plus the transfer gas cost.
+    The Go code computes it in uint64 (`l.(uint64) + e.transferGasCost`); the reduction mod 2^64 happens in `packStep`,
+    where the model adds it to the batch (`(a + (b mod M)) mod M = (a + b) mod M`), so `NoOverflow` below really
+    excludes every wrap, including that of a single allowance. -/
 def propGas (tg : Nat) (p : PIn) : Nat :=
   match p.gas with
-  | some l => (l + tg) % M
-  | none   => tg % M
+  | some l => l + tg
+  | none   => tg
 
 /-- indices of the proposals that still need execution, with their gas allowance -/
 def pendingFrom (tg : Nat) : Nat → List PIn → List (Nat × Nat)
@@ -53,6 +56,9 @@ def batchesOpt (cap tg : Nat) (ps : List (PIn × Bool)) : Option (List Bt) :=
 
 /-- session id of batch `i` of message `msgId`: `fmt.Sprintf("%s-%d", messageID, i)` -/
 def sessionId (msgId : String) (i : Nat) : String := msgId ++ "-" ++ toString i
+
+/-- what `executeBatch` hands to `ExecuteProposals`: each non-empty batch with ITS gas limit as the transaction gas limit -/
+def submitted (bs : List Bt) : List Bt := bs.filter (·.members ≠ [])
 
 /-- what `Execute` hashes and signs: the non-empty batches, each under its positional session id -/
 def signedFrom (msgId : String) : Nat → List Bt → List (String × List Nat)
